@@ -12,6 +12,8 @@ def run(ctx):
     ctx.assumptions += ["one pod set per job in the generated scenarios (hierarchical sub-groups are covered by the repository fixtures stage when present)"]
     n = 600 if ctx.quick else 10000
     st_cluster.run_stage(ctx, PREFIXES, [("mixed", n // 3), ("full", n // 6), ("closed", n // 8), ("fraction", n // 8), ("elastic", n // 5), ("nested", n // 8), ("elasticnom", n // 8), ("foreign", n // 6), ("frag", n // 8)])
+    # hand-made scenarios: a pod set of more than a hundred pods with a single surplus pod next to a pod set at its minimum
+    st_cluster.run_directed(ctx, PREFIXES, "C03")
     st_fixtures.run_stage(ctx, PREFIXES)
 
 
